@@ -123,6 +123,8 @@ type pipeEp struct {
 	fc     *sweepClient
 	p      rueidiscompat.Pipeliner
 	labels map[rueidiscompat.Cmder]int
+	held   [][]rueidiscompat.Cmder // the slices returned by the Execs of this episode, kept by the caller
+	heldAt []string                // what each of them held when Exec returned (oracle vocabulary)
 }
 
 func newPipeEp(tx bool) *pipeEp {
@@ -238,12 +240,22 @@ func (ep *pipeEp) exec(words []string, oracle bool) (ans string) {
 		}
 		return resFor(spec, argv, 0)
 	}
+	var rets []rueidiscompat.Cmder
+	var err error
+	if !oracle {
+		// the caller keeps the returned slice (also when Exec panicked: nothing was returned)
+		defer func() {
+			ep.held = append(ep.held, rets)
+			ep.heldAt = append(ep.heldAt, ep.heldStr(rets, true))
+		}()
+	}
 	defer func() {
 		if r := recover(); r != nil {
+			rets = nil
 			ans = fmt.Sprintf("panic len=%d", ep.p.Len())
 		}
 	}()
-	rets, err := ep.p.Exec(context.Background())
+	rets, err = ep.p.Exec(context.Background())
 	sent := "-"
 	if len(ep.fc.batches) > 1 {
 		return "more-than-one-batch"
@@ -284,6 +296,27 @@ func (ep *pipeEp) exec(words []string, oracle bool) (ans string) {
 	return fmt.Sprintf("sent=%s err=%s rets=%s len=%d", sent, errName(err), rs, ep.p.Len())
 }
 
+// heldStr renders a result slice as it is NOW: which call handed out each element and what it holds.
+func (ep *pipeEp) heldStr(rets []rueidiscompat.Cmder, oracle bool) string {
+	if len(rets) == 0 {
+		return "rets=-"
+	}
+	var parts []string
+	for _, r := range rets {
+		l, ok := ep.labels[r]
+		ls := strconv.Itoa(l)
+		if !ok {
+			ls = "?"
+		}
+		st := cmderState(r)
+		if oracle && (st == "ok:-" || st == "err:notexec") {
+			st = "none"
+		}
+		parts = append(parts, ls+":"+st)
+	}
+	return "rets=" + strings.Join(parts, ";")
+}
+
 func pipeOps(c *Ctx, lines []string) {
 	var ep *pipeEp
 	for _, line := range lines {
@@ -312,6 +345,22 @@ func pipeOps(c *Ctx, lines []string) {
 			c.Emit(line, fmt.Sprintf("len=%d", ep.p.Len()), false)
 		case "len":
 			c.Emit(line, fmt.Sprintf("len=%d", ep.p.Len()), false)
+		case "held", "!held":
+			k := -1
+			if len(w) > 1 {
+				k, _ = strconv.Atoi(w[1])
+			}
+			if k < 0 || k >= len(ep.held) {
+				c.Emit(line, "bad-op", false)
+				break
+			}
+			ans := ep.heldStr(ep.held[k], w[0] == "!held")
+			c.Hit(w[0])
+			c.Emit(line, ans, len(ep.held[k]) >= 1 && k < len(ep.held)-1)
+			if w[0] == "!held" && ans != ep.heldAt[k] {
+				c.Fail("pipeline:returned-results-overwritten-by-next-batch", line,
+					fmt.Sprintf("the slice returned by Exec #%d held %s when Exec returned and holds %s after later batches were queued/executed on the same pipeline", k, ep.heldAt[k], ans))
+			}
 		case "exec", "!exec":
 			n := ep.p.Len()
 			ans := ep.exec(w[1:], w[0] == "!exec")
@@ -467,6 +516,69 @@ func runPipe(c *Ctx) {
 		}
 		pipeOps(c, ops)
 	}
+	// one Pipeline/TxPipeline reused for several batches while the caller keeps every returned slice
+	reuse := func(tx bool, batches int, rnd bool) {
+		mode := map[bool]string{false: "pipe", true: "tx"}[tx]
+		ops := []string{"reset " + mode}
+		for b := 0; b < batches; b++ {
+			nq := 2 + b%2
+			if rnd {
+				nq = 1 + c.Rng.IntN(5)
+			}
+			kindsOK := []string{"get", "set", "incr", "echo", "del", "bitcount", "do"}
+			for i := 0; i < nq; i++ {
+				label++
+				k := kindsOK[(b+i)%len(kindsOK)]
+				if rnd {
+					k = kindsOK[c.Rng.IntN(len(kindsOK))]
+				}
+				if k == "do" {
+					ops = append(ops, fmt.Sprintf("q do %d %d", label, 2+i%2))
+				} else {
+					ops = append(ops, fmt.Sprintf("q %s %d", k, label))
+				}
+				// earlier result slices looked at while the next batch is being queued
+				for h := 0; h < b; h++ {
+					ops = append(ops, fmt.Sprintf("held %d", h), fmt.Sprintf("!held %d", h))
+				}
+			}
+			var ex []string
+			if !tx {
+				for i := 0; i < nq; i++ {
+					if rnd {
+						ex = append(ex, reply())
+					} else {
+						ex = append(ex, "v")
+					}
+				}
+			} else {
+				var el []string
+				for i := 0; i < nq; i++ {
+					el = append(el, "v")
+				}
+				for i := 0; i < nq+1; i++ {
+					ex = append(ex, "v")
+				}
+				exr := "a:" + strings.Join(el, ",")
+				if rnd && c.Rng.IntN(6) == 0 {
+					exr = "n"
+				}
+				ex = append(ex, "|", exr)
+			}
+			ops = append(ops, "exec "+strings.Join(ex, " "))
+			for h := 0; h <= b; h++ {
+				ops = append(ops, fmt.Sprintf("held %d", h), fmt.Sprintf("!held %d", h))
+			}
+		}
+		pipeOps(c, ops)
+	}
+	for _, tx := range []bool{false, true} {
+		reuse(tx, 2, false)
+		reuse(tx, 3, false)
+	}
+	for i := 0; i < 4+c.N/20; i++ {
+		reuse(c.Rng.IntN(2) == 0, 2+c.Rng.IntN(3), true)
+	}
 	// deterministic small episodes first
 	for _, tx := range []bool{false, true} {
 		mode := map[bool]string{false: "pipe", true: "tx"}[tx]
@@ -485,7 +597,7 @@ func runPipe(c *Ctx) {
 
 func init() {
 	suites["pipe"] = suite{
-		rule: "episodes of 0-6 queued commands (Get/Set/Incr/Echo/Del/BitCount/Do with 0-4 args, plus rejected calls: BitCount with an invalid unit, SetArgs with an invalid mode, Do without arguments), optional Discard, 1-3 Exec rounds on the real Pipeline or TxPipeline over a scripted fake client (values tagged by the label in the command's own argv; redis errors, nil, connection errors; EXEC array / nil / error / non-array / wrong length); every final Exec is emitted twice, once against the model and once ('!') against the property; non-trivial = Exec with at least two queued commands, distinct op",
+		rule: "episodes of 0-6 queued commands (Get/Set/Incr/Echo/Del/BitCount/Do with 0-4 args, plus rejected calls: BitCount with an invalid unit, SetArgs with an invalid mode, Do without arguments), optional Discard, 1-3 Exec rounds on the real Pipeline or TxPipeline over a scripted fake client (values tagged by the label in the command's own argv; redis errors, nil, connection errors; EXEC array / nil / error / non-array / wrong length); one pipeline reused for 2-4 batches while every returned result slice is kept and re-read (`held`/`!held`) during and after the later batches; every final Exec is emitted twice, once against the model and once ('!') against the property; non-trivial = Exec with at least two queued commands, distinct op",
 		run:  runPipe,
 		replay: func(c *Ctx, lines []string) {
 			pipeOps(c, lines)
